@@ -26,7 +26,7 @@ def c09_prebuild(stage, pid, tier):
 def SPEC(tier):
     # handedness must be read from the LH bit alone: the depth-range macro is combined with both handedness settings
     cfgs = [('RH', []), ('LH', ['-DGLM_FORCE_LEFT_HANDED', '-DC09_EXPECT_LH']),
-            ('LH_ZO', ['-DGLM_FORCE_LEFT_HANDED', '-DGLM_FORCE_DEPTH_ZERO_TO_ONE', '-DC09_EXPECT_LH']), ('RH_ZO', ['-DGLM_FORCE_DEPTH_ZERO_TO_ONE']),
+            ('LH_ZO', ['-DGLM_FORCE_LEFT_HANDED=', '-DGLM_FORCE_DEPTH_ZERO_TO_ONE=', '-DC09_EXPECT_LH']), ('RH_ZO', ['-DGLM_FORCE_DEPTH_ZERO_TO_ONE']),
             ('RH_XYZW', ['-DGLM_FORCE_QUAT_DATA_XYZW']), ('RH_WXYZ', ['-DGLM_FORCE_QUAT_DATA_WXYZ'])]
     stages = []
     for name, flags in cfgs:
